@@ -156,15 +156,15 @@ func init() {
 		QuickBudget: 8 * time.Minute, ThoroughBudget: 25 * time.Minute,
 	}
 	checks["C07"] = &CheckDef{
-		Pkgs:    []string{"./component/dns", "./control"},
-		Harness: []string{"component/dns:Verif_C07_request", "component/dns:Verif_C07_response", "component/dns:Verif_C07_response_select", "control:Verif_C07_reject_ignores_cache", "control:Verif_C07_reask_bound"},
+		Pkgs:    []string{"./component/dns", "./control", "./component/routing/domain_matcher"},
+		Harness: []string{"component/dns:Verif_C07_request", "component/dns:Verif_C07_response", "component/dns:Verif_C07_response_select", "control:Verif_C07_reject_ignores_cache", "control:Verif_C07_reask_bound", "component/routing/domain_matcher:Verif_C07_qname_marker_bytes"},
 		MaxIter: 600,
 		Level:   "other",
 		LevelText: "DNS request and response rule programs of symbolic shape are lowered by the real RulesBuilder.Apply into the real Request/ResponseMatcherBuilder.add* methods with symbolic typed values (query types, answer prefixes, upstream ids), built by the real Build and matched by the real RequestMatcher.Match / ResponseMatcher.Match on a symbolic question (type, answering upstream, 0-2 answer addresses); the solver shows the selected upstream / verdict equal to a first-match evaluator for every question. The real DnsController.HandleWithResponseWriter_ is run with a live cache entry and a request routed to reject (empty answer, cache family dropped, no upstream contacted), and the real dialSend recursion is run against an adversarial ResponseSelect (any verdict at every step): at most MaxDnsLookupDepth upstream queries, failure only by the depth limit.",
 		LevelNote: "Trusted: go/ssa, executor, z3, the evaluator in the harness. Contracts K-LPM / K-DOM as in C01 (qname sets are free booleans; the answer-address trie is CIDR containment). Forwarders, the dialer chooser and wire packing are stubs; Dns.RequestSelect/ResponseSelect are replaced in the controller harnesses (their own index checks are not covered).",
 		Technique: techniqueText,
 		Explanation: "Bounded symbolic execution of DNS rule compilation/matching and of the controller's reject and re-ask flows.",
-		Bounds:  map[string]string{"quick": "request: {qname|qtype}(<=2 values) && {qname|qtype} then {qname|qtype}(<=2), 2 of 4 upstream targets per rule; response: {ip|upstream|qtype}(<=2) && qname then {ip|upstream}, verdicts accept/reject/upstream; question: symbolic qtype and answering upstream, answers none | one v4 | v6+v4 with symbolic bytes; re-ask chains: every verdict sequence up to the depth limit", "thorough": "all kinds in all three positions, all verdict combinations, any family per answer"},
+		Bounds:  map[string]string{"quick": "qname_marker_bytes: one full or suffix set {a | a.b}, names of 2-5 symbolic bytes over {a,b,.,^,$}; request: {qname|qtype}(<=2 values) && {qname|qtype} then {qname|qtype}(<=2), 2 of 4 upstream targets per rule; response: {ip|upstream|qtype}(<=2) && qname then {ip|upstream}, verdicts accept/reject/upstream; question: symbolic qtype and answering upstream, answers none | one v4 | v6+v4 with symbolic bytes; re-ask chains: every verdict sequence up to the depth limit", "thorough": "all kinds in all three positions, all verdict combinations, any family per answer"},
 		Outside: []string{"network forwarders, TCP fallback", "Dns.RequestSelect/ResponseSelect index range checks", "SplitRequestRules"},
 		Assumptions: []string{"K-LPM (C12)", "K-DOM (C11)", "forwardWithFallback returns an arbitrary well-formed answer"},
 		QuickBudget: 8 * time.Minute, ThoroughBudget: 20 * time.Minute,
@@ -271,8 +271,8 @@ func init() {
 		LevelNote: "Partial claim. Not covered: pipelining timeouts / ID reuse after cancellation with ID reuse, UDP->TCP fallback, caching under the right key - the last is covered from the cache side by C07/C08). Trusted: go/ssa, executor and its thread model (switches only at synchronisation operations), z3, miekg/dns Pack/Unpack as executed.",
 		Technique: techniqueText,
 		Explanation: "Bounded symbolic execution and schedule exploration of DNS reply ID handling, upstream ID filtering and forwarder lifetime.",
-		Bounds: map[string]string{"quick": "2 borrowers + 1 retire, <=2 preemptions; cached answers of 12/16/20 symbolic bytes, symbolic 16-bit IDs; 1-3 upstream datagrams with symbolic IDs; 2 concurrent clients on one uncached question; pipelined: 2 queries + 1 stray reply (5 stray IDs, both genuine orders); pipelined_cancel: 1 cancelled query, 1 later query, the late answer first", "thorough": "same (3 preemptions are out of reach within the budget)"},
-		Outside: []string{"the UDP packet-send branch after singleflight (needs sendPkt)", "DoH / DoQ forwarders, pipelined connection pool scaling", "UDP to TCP fallback", "ID collisions between concurrent clients on one pooled socket (each borrower owns its socket while it waits)"},
+		Bounds: map[string]string{"quick": "2 borrowers + 1 retire, <=2 preemptions; cached answers of 12/16/20 symbolic bytes, symbolic 16-bit IDs; 1-3 upstream datagrams with symbolic IDs, each echoing the question asked (either letter case) or another one; 2 concurrent clients on one uncached question; pipelined: 2 queries + 1 stray reply (5 stray IDs, both genuine orders); pipelined_cancel: 1 cancelled query, 1 later query, the late answer first", "thorough": "same (3 preemptions are out of reach within the budget)"},
+		Outside: []string{"the UDP packet-send branch after singleflight (needs sendPkt)", "DoH / DoQ forwarders, pipelined connection pool scaling", "comparison of the echoed question on the stream / pipelined / DoH transports (their IDs are allocated by dae per connection; only the UDP path, where the ID is the client's, is checked for it)", "UDP to TCP fallback", "ID collisions between concurrent clients on one pooled socket (each borrower owns its socket while it waits)"},
 		Assumptions: []string{"goroutines switch only at synchronisation operations", "sendPkt replaced by a recorder; the upstream socket is a model that returns the given datagrams then times out"},
 		QuickBudget: 10 * time.Minute, ThoroughBudget: 20 * time.Minute,
 	}
